@@ -121,7 +121,13 @@ fn optimal_deviations<const PLAYER_ONE: bool>(
         }
 
         // set the max utility of playing to reach an infoset
-        infosets[info].max_utility = payoffs.into_iter().reduce(f64::max).unwrap() / total_reach;
+        // NOTE the reach of an infoset can underflow to zero, it then contributes nothing
+        let max_payoff = payoffs.into_iter().reduce(f64::max).unwrap();
+        infosets[info].max_utility = if total_reach > 0.0 {
+            max_payoff / total_reach
+        } else {
+            0.0
+        };
     }
     next_infoset_search::<PLAYER_ONE>(start, &mut search_queue, &infosets, chance_info, strat_info)
 }
